@@ -24,7 +24,7 @@ func plansFor(prop string, thorough bool) ([]Plan, int) {
 			{Name: "gov-all", Const: "gov", Kinds: []string{"vote", "seen", "dkgres", "checkin", "dkgmsg"}, Depth: d(3, 4), Product: "replicas",
 				SimNum: d(60, 1500), SimDepth: d(30, 60), MaxBeh: d(1500, 30000)},
 			{Name: "val-replicas", Const: "val", Kinds: []string{"vote", "seen", "checkin"}, Depth: d(4, 6), Product: "replicas", MaxBeh: d(1000, 20000)},
-			{Name: "val2-replicas", Const: "val2", Kinds: []string{"vote", "seen", "checkin"}, Depth: d(6, 9), Edges: true, MaxBeh: d(3000, 0)},
+			{Name: "val2-replicas", Const: "val2", Kinds: []string{"vote", "seen", "checkin"}, Depth: d(6, 9), Edges: true, MaxBeh: d(3000, 60000)},
 			{Name: "gov-dupacc", Const: "gov", Kinds: []string{"vote", "dupacc"}, Depth: d(3, 4), Product: "replicas", MaxBeh: d(0, 20000)},
 			{Name: "one-mempool", Const: "one", Kinds: []string{"seen"}, Depth: d(12, 14), Product: "replicas", Mempool: true, MaxBeh: d(400, 4000)},
 			{Name: "val2-restart", Const: "val2", Kinds: []string{"vote", "seen", "checkin"}, Depth: d(5, 7), Product: "replicas", Restart: true, MaxBeh: d(1500, 20000)},
